@@ -46,6 +46,8 @@ def mutants_for(lines, lo, hi):
         # operator replacements, one occurrence at a time; skip generics / arrows
         for pat, rep in OPS:
             for m in re.finditer(pat, code):
+                if code[:m.start()].count('"') % 2 == 1:
+                    continue   # inside a string literal
                 ctx = code[max(0, m.start() - 2):m.end() + 2]
                 if '->' in ctx or '=>' in ctx or '::<' in ctx:
                     continue
@@ -54,10 +56,32 @@ def mutants_for(lines, lo, hi):
                     if not (code[m.start() - 1:m.start()] == ' ' and code[m.end():m.end() + 1] == ' '):
                         continue
                 new = code[:m.start()] + rep + code[m.end():] + t[len(code):]
-                out.append((ln, f'`{m.group(0)}` -> `{rep}`', new))
+                out.append((ln, f'`{m.group(0)}` -> `{rep}`', new, ln))
         # delete a one-line statement that is a call ending in `?;` or a plain method call `;`
         if re.match(r'^\s*(self\.|Self::)?[A-Za-z_][\w\.:]*\(.*\)\??;\s*$', code) and 'let ' not in code and 'return' not in code:
-            out.append((ln, 'statement deleted', re.sub(r'\S.*', '();', t, count=1) if False else t[:len(t) - len(t.lstrip())] + '();' + '\n'))
+            out.append((ln, 'statement deleted', t[:len(t) - len(t.lstrip())] + '();', ln))
+    # multi-line: (a) a call statement `self.x(..)\n   .y()?;` without a binding, (b) a guard `if c { return Err(..); }`
+    ln = lo
+    while ln <= hi:
+        t = lines[ln - 1]; st = t.strip()
+        if re.match(r'^(self\.|Self::|[a-z_][\w]*\.)', st) and not st.endswith(';') and 'let ' not in st:
+            end = ln
+            while end < hi and not lines[end - 1].rstrip().endswith(';') and end - ln < 8:
+                end += 1
+            if lines[end - 1].rstrip().endswith('?;') and end > ln:
+                out.append((ln, f'statement deleted (lines {ln}-{end})', None, end))
+            ln = end + 1; continue
+        if st.startswith('if ') and st.endswith('{'):
+            # find the closing brace at the same indent
+            ind = len(t) - len(t.lstrip())
+            end = ln + 1
+            while end <= hi and not (lines[end - 1].startswith(' ' * ind + '}') and len(lines[end - 1]) - len(lines[end - 1].lstrip()) == ind):
+                end += 1
+            if end <= hi and lines[end - 1].strip() == '}':
+                body = ' '.join(x.strip() for x in lines[ln:end - 1])
+                if body.startswith('return Err(') and body.count('return') == 1 and end - ln <= 12:
+                    out.append((ln, f'guard deleted (lines {ln}-{end}): `{st[:80]}`', None, end))
+        ln += 1
     return out
 
 def run_unit(unit, scratch, builddir):
@@ -68,19 +92,25 @@ def run_unit(unit, scratch, builddir):
     return p.returncode, red, und
 
 def work(job):
-    unit, ex, ln, desc, new, wid = job
+    unit, ex, ln, desc, new, end, base_red, wid = job
     scratch = f'/scratch/mutscan/w{wid}'; builddir = f'/scratch/mutscan/b{wid}'
     src = os.path.join(scratch, ex['file'])
-    orig = open(src).read().split('\n')
+    orig_text = open(src).read()
+    orig = orig_text.split('\n')
     keep = orig[ln - 1]
-    orig[ln - 1] = new.rstrip('\n')
-    open(src, 'w').write('\n'.join(orig))
+    mut = list(orig)
+    if new is None:
+        for k in range(ln, end + 1):
+            mut[k - 1] = ''
+    else:
+        mut[ln - 1] = new.rstrip('\n')
+    open(src, 'w').write('\n'.join(mut))
     try:
         rc, red, und = run_unit(unit, scratch, builddir)
     finally:
-        orig[ln - 1] = keep
-        open(src, 'w').write('\n'.join(orig))
-    return (unit, ex['id'], ex['file'], ln, desc, keep.strip(), new.strip(), rc, red, und)
+        open(src, 'w').write(orig_text)
+    red = [x for x in red if x not in base_red]
+    return (unit, ex['id'], ex['file'], ln, desc, keep.strip(), (new or '').strip(), rc, red, und)
 
 os.makedirs('/scratch/mutscan', exist_ok=True)
 os.makedirs(ROOT + '/notes/mutscan', exist_ok=True)
@@ -91,6 +121,7 @@ for unit in units:
     shutil.rmtree(base_build, ignore_errors=True)
     env = dict(os.environ, VX_BUILD_DIR=base_build)
     p = subprocess.run([ROOT + '/bin/check', '--unit', unit, '--no-evidence'], capture_output=True, text=True, env=env)
+    base_red = sorted(set(re.findall(r'^\s*FAIL (\S+)', p.stdout + p.stderr, re.M)))
     mp = glob.glob(f'{base_build}/{unit}/*_main.map.json')
     if not mp:
         print(unit, 'no map (baseline failed?)'); continue
@@ -105,8 +136,8 @@ for unit in units:
         # deterministic thinning
         if len(ms) > maxper:
             ms = sorted(ms, key=lambda x: hashlib.sha1((str(x[0]) + x[1]).encode()).hexdigest())[:maxper]
-        for (ln, desc, new) in ms:
-            jobs_list.append((unit, ex, ln, desc, new))
+        for (ln, desc, new, end) in ms:
+            jobs_list.append((unit, ex, ln, desc, new, end, base_red))
     print(f'{unit}: {len(jobs_list)} mutants', flush=True)
     # worker dirs
     for w in range(jobs):
